@@ -135,6 +135,7 @@ def run(prop, tier):
     byid = dict((t["id"], t) for t in traces + mutants)
     bycase = dict((c["id"], c) for c in cases)
     verdict = lib.Verdict(prop, tier)
+    verdict.t0 = t0                      # wall time of the whole run, not only of the verdict step
     mut_rejected = set()
     for rj in val["rejected"]:
         t = byid[rj["id"]]
@@ -234,3 +235,24 @@ def selftest_traces(traces):
     variant("errors", "ErrorsPersisted", lambda e: e[1]["docs"][2].update(nerrors=0))
     variant("split", "R4.split", lambda e: e[1]["env"][0].update(split=[["p1"], [], ["n1"], []]))
     return out
+
+
+def replay(prop, path):
+    """Re-execute a recorded violation against the current tree and re-validate it."""
+    with open(path) as f:
+        rec = json.load(f)
+    rp = rec["replay"]
+    case = dict(rp["case"], id="replay", via=rp["trace"]["events"][-1].get("via", "hydrate"))
+    same = False
+    print("replay of %s (%s)" % (path, rec["signature"]))
+    for k in range(4):                      # the concretisation below an abstract case is seeded: try a few
+        out = lib.run_driver("drive_serde.py", dict(base=os.path.join(lib.subdir("c11fs"), "replay%d" % k),
+                                                    seed=lib.seed() + k, longlen=70000, cases=[case]))
+        val = lib.validate_traces("SerdeTrace", "SerdeTrace.cfg", out["traces"], jobs=1)
+        for rj in val["rejected"]:
+            print("  rejected: clause %s" % rj["clause"])
+            same = same or lib.sig(prop, rj["clause"]) == rec["signature"]
+        if same:
+            break
+    print("  %s" % ("REPRODUCED" if same else "not reproduced on the current tree"))
+    return 1 if same else 0
